@@ -1006,6 +1006,7 @@ static void cmd_var(Toks &T)
 static void cmd_un(Toks &T)
 {
     std::string op = T.next(); int r = T.nexti(); int a = T.nexti();
+    { J c("Call"); c.s("c", "un").s("op", op).i("r", r).i("a", a).i("b", -1); c.done(); }
     J j("Un"); j.s("op", op).i("r", r).i("a", a);
     try {
         dd_edge &A = getE(a); dd_edge &R = getE(r);
@@ -1021,6 +1022,7 @@ static void cmd_un(Toks &T)
 static void cmd_bin(Toks &T)
 {
     std::string op = T.next(); int r = T.nexti(); int a = T.nexti(); int b = T.nexti();
+    { J c("Call"); c.s("c", "bin").s("op", op).i("r", r).i("a", a).i("b", b); c.done(); }
     J j("Bin"); j.s("op", op).i("r", r).i("a", a).i("b", b);
     try {
         dd_edge &A = getE(a); dd_edge &B = getE(b); dd_edge &R = getE(r);
@@ -1335,6 +1337,7 @@ static void cmd_sat(Toks &T)
     std::string mode = T.next(); int split = T.nexti(); int n = T.nexti();
     std::vector<long> evs;
     for (int x=0; x<n; x++) evs.push_back(T.nextl());
+    { J c("Call"); c.s("c", "sat").s("op", "SATURATION_FORWARD").i("r", r).i("a", init).i("b", n>0 ? evs[0] : -1); c.done(); }
     J j("Sat"); j.i("r", r).i("init", init).s("mode", mode).i("split", split).arr("evs", evs);
     pregen_relation* pr = nullptr;
     try {
